@@ -30,7 +30,7 @@ def flegendre(x, m):
     if m < 1:
         raise ValueError('Number of Legendre polynomials must be at least 1.')
     try:
-        dt = x.dtype
+        dt = np.result_type(x.dtype, np.float32)
     except AttributeError:
         dt = np.float64
     leg = np.ones((m, n), dtype=dt)
